@@ -202,3 +202,15 @@ stepped forward. -/
 theorem C10_timeout_on_the_monotonic_clock :
     LA.Gen.ReasmFacts.deadlinesMonotonic ≠ [] ∧ LA.Gen.ReasmFacts.deadlinesMonotonic.all (· == true) = true ∧
     LA.Gen.ReasmFacts.clockStrips = [] := by decide
+
+/-- The model's message is the record as the Reassembler sees it — an identity, a sequence number and a record type —
+and that is all the code looks at: in reassembler.go the only fields of `auparse.AuditMessage` selected are `RecordType`
+and `Sequence`, and the only function outside the root package that is handed messages is the Stream's
+`ReassemblyComplete` (`msgReads`, regenerated with go/types on every run). Grouping, order, completion, eviction and
+loss accounting are therefore functions of (sequence, type) histories and of the clock, as in `Model.Reasm`; a
+Reassembler that also consults a record's time stamp, text or parsed data — to guess at a restart of the kernel's
+counter, to tell two events with one number apart — is outside that reading whatever it uses them for, and the
+drivers' histories (which vary time stamps and bodies independently of the sequence numbers) search for the input on
+which it shows. -/
+theorem C10_reads_only_sequence_and_type :
+    LA.Gen.ReasmFacts.msgReads = ["call:ReassemblyComplete", "field:RecordType", "field:Sequence"] := by decide
